@@ -126,7 +126,7 @@ package scheduler
 // when it was found; the recovery branch and the external-placement branch book the SAME resource to queue chain,
 // node and application (which also charges the user, C03 pairing), so restart recovery rebuilds the same totals
 //@ func (pc *PartitionContext) UpdateAllocation(alloc *objects.Allocation) (requestCreated bool, allocCreated bool, err error)
-//@   props C12 C13 C03 C04
+//@   props C12 C13 C03 C04 C01
 //@   sweep
 //@   mode exempt=allocnonneg:alloc
 //@   mode nopanic=on
